@@ -283,6 +283,12 @@ def select_sites(run, model, rule="C05.select"):
         run.saw(flow)
         sel = model.func(selq)
         n_sites = 0
+        # the TypeError of a missing name (and any exception of the callable) must reach the caller: no handler
+        for n in flow.cfg.nodes:
+            for call, c, a in calls_in(n):
+                if fi_of_term(model, flow.term(call.func, n)) is sel:
+                    caught = [tr for tr, part in n.in_try if part == "body" and tr.handlers]
+                    run.check(not caught, rule, "%s:select-propagates@%d" % (fi.qual, n.lineno if False else 0), "the missing-name TypeError of the selection is not intercepted", "the selection of the keywords is inside a try with `except %s`: the TypeError naming a missing argument is intercepted instead of failing the call" % (src_of(caught[0].handlers[0].type) if caught and caught[0].handlers[0].type is not None else ""), fi.loc(n), None, first_line(n.stmt))
         for n in flow.cfg.nodes:
             for call, c, a in calls_in(n):
                 f = call.func
